@@ -1,10 +1,10 @@
-\* C41 leg A quick: start,end in 0..14, step 1..5, interval 1..6 (range) + labels/series ranges;
-\* arithmetic = set equivalence over 0..4
+\* C41 leg A quick: start,end in 0..12, step 1..4, interval 1..5 (range) + labels/series ranges;
+\* arithmetic = set equivalence over 0..3
 SPECIFICATION Spec
-CONSTANTS MaxT = 14
-          MaxStep = 5
-          MaxIv = 6
-          EqT = 4
+CONSTANTS MaxT = 12
+          MaxStep = 4
+          MaxIv = 5
+          EqT = 3
 INVARIANTS C41_RangeExactlyOnce C41_RangeAligned C41_WellFormed C41_MetaCovers FunctionalFormAgrees ArithAgreesOnOutput C41_NotStuck
 PROPERTIES C41_Progress
 CHECK_DEADLOCK FALSE
